@@ -184,7 +184,7 @@ fn build(ch: &mut Chooser, fmt: &'static str, thorough: bool) -> PCase {
         let kind = match ch.choose("reference-kind", 5) { 0 => RefKind::Registered, 1 => RefKind::Project, 2 => RefKind::Control { original: false, extended_name: false }, 3 => RefKind::Control { original: true, extended_name: false }, _ => RefKind::Control { original: true, extended_name: true } };
         refs.push(VRef { name: ["stdole", "Office", "MSForms"][i].to_string(), kind });
     }
-    let project = VProject { codepage: cp, modules, refs, compat_version: ch.flag("compat-version-record") };
+    let project = VProject { codepage: cp, modules, refs, compat_version: ch.flag("compat-version-record"), descriptive: ch.flag("project-description-helpfile-constants-non-empty") };
     let lay = cfb::Layout { v4: ch.flag("cfb.v4"), order: ch.pick("cfb.order", &[cfb::Order::Sequential, cfb::Order::Reversed, cfb::Order::Interleaved]), dir_reversed: ch.flag("cfb.dir-reversed"), ..Default::default() };
     let bytes = match fmt {
         "xls" => {
